@@ -541,7 +541,7 @@ func c14Models(thorough bool) []gen.Tagged {
 		for _, kind := range []string{"relations", "types", "conditions"} {
 			out = append(out, gen.SweepModular(kind, n))
 		}
-		out = append(out, gen.SweepRelations(n), gen.SweepConditions(n), gen.SweepParams(n))
+		out = append(out, gen.SweepRelations(n), gen.SweepConditions(n), gen.SweepParams(n), gen.SweepModules(n))
 	}
 	return out
 }
